@@ -65,3 +65,82 @@ def label_kind(label):
 def nontrivial(lines):
     """A trace is non-trivial if at least one block was entered and left."""
     return any("exit:" in ln for ln in lines)
+
+
+def extra_checks(pid, tier, seed):
+    """C20 outside the model's label domain (there a consumer holds at most one item at a time):
+    one task holding several items of the same queue at once - nested `async with queue` blocks
+    and an AsyncExitStack - must mark each of them exactly once, whatever way the blocks are left;
+    join() then returns."""
+    import asyncio
+    import contextlib
+    import lockstep
+    lockstep._init_worker()
+    from asyncio_taskpool.queue_context import Queue
+    fails = []
+
+    class Boom(BaseException):
+        pass
+
+    async def scenario(name, body, n_items, maxsize=0):
+        q = Queue(maxsize=maxsize)
+        for i in range(n_items):
+            q.put_nowait(i)
+        joiners = [asyncio.ensure_future(q.join()) for _ in range(2)]
+        t = asyncio.ensure_future(body(q))
+        await asyncio.wait({t}, timeout=2)
+        for _ in range(20):
+            await asyncio.sleep(0)
+        done = [j.done() for j in joiners]
+        if not all(done) or q.qsize() != 0:
+            fails.append({"what": "join() did not return although every item was taken and every "
+                                  "block exited", "scenario": name, "joiners_done": done,
+                          "qsize": q.qsize()})
+        extra = None
+        try:
+            q.task_done()
+        except ValueError:
+            pass
+        else:
+            extra = "an item was left unmarked (task_done() still accepted)"
+        if extra and all(done):
+            fails.append({"what": extra, "scenario": name})
+        for j in joiners:
+            j.cancel()
+        t.cancel()
+
+    async def nested(q):
+        async with q as a:
+            async with q as b:
+                async with q as c:
+                    await asyncio.sleep(0)
+        return a, b, c
+
+    async def nested_raise(q):
+        with contextlib.suppress(Boom, ValueError):
+            async with q as a:
+                with contextlib.suppress(ValueError):
+                    async with q as b:
+                        raise ValueError(b)
+                raise Boom(a)
+
+    async def stack(q):
+        async with contextlib.AsyncExitStack() as st:
+            for _ in range(3):
+                await st.enter_async_context(q)
+            await asyncio.sleep(0)
+
+    async def loop_and_nest(q):
+        for _ in range(2):
+            async with q as a:
+                async with q as b:
+                    await asyncio.sleep(0)
+
+    async def go():
+        await scenario("nested x3", nested, 3)
+        await scenario("nested, inner ValueError, outer BaseException", nested_raise, 2)
+        await scenario("AsyncExitStack x3", stack, 3, maxsize=3)
+        await scenario("two rounds of nested x2", loop_and_nest, 4)
+
+    asyncio.run(go())
+    return fails
